@@ -50,6 +50,10 @@ func scionReference() string {
 type scionLive struct {
 	c       *client.SCIONClient
 	srcPort uint16 // of the last request (for replies)
+	key     bool   // the configured DRKey fetcher hands out a host-host key
+	noKeyF  *scion.Fetcher
+	keyF    *scion.Fetcher
+	reqAuth reqAuthInfo // what the peer saw of the last request's packet authenticator
 }
 
 func (l *scionLive) configure(cfg exchCfg, f *recFilter) {
@@ -58,9 +62,19 @@ func (l *scionLive) configure(cfg exchCfg, f *recFilter) {
 	if cfg.nts {
 		l.c.Auth.NTSKEFetcher.VerifC11SetData(ntsData())
 	}
-	l.c.Auth.Enabled = cfg.spao
-	if cfg.spao && l.c.Auth.DRKeyFetcher == nil {
-		l.c.Auth.DRKeyFetcher = scion.NewFetcher(nil) // no daemon: the key fetch fails, no key becomes available
+	l.c.Auth.Enabled = cfg.spao || cfg.spaoKey
+	l.key = cfg.spaoKey
+	switch {
+	case cfg.spaoKey:
+		if l.keyF == nil {
+			l.keyF = scion.NewFetcher(theDaemon) // fake daemon connector: the key fetch succeeds (gen_auth.go)
+		}
+		l.c.Auth.DRKeyFetcher = l.keyF
+	case cfg.spao:
+		if l.noKeyF == nil {
+			l.noKeyF = scion.NewFetcher(nil) // no daemon: the key fetch fails, no key becomes available
+		}
+		l.c.Auth.DRKeyFetcher = l.noKeyF
 	}
 	l.c.Filter = nil
 	if f != nil {
@@ -77,7 +91,7 @@ func (l *scionLive) measure(ctx context.Context) (time.Time, time.Duration, erro
 	return client.VerifC03MeasureSCION(ctx, l.c, la, ra, path)
 }
 func (l *scionLive) transport() (string, string) {
-	return "scion", fmt.Sprintf("key=false ria=%d rhost=%d lia=%d lhost=%d",
+	return "scion", fmt.Sprintf("key="+lib.Bool(l.key)+" ria=%d rhost=%d lia=%d lhost=%d",
 		uint64(remoteIA), addrNum(thePeer.addr.Addr()), uint64(localIA), addrNum(localIP))
 }
 
@@ -113,6 +127,7 @@ func (l *scionLive) parse(b []byte) reqInfo {
 		return reqInfo{}
 	}
 	l.srcPort = p.udp.SrcPort
+	l.reqAuth = readReqAuth(p, b)
 	return parseReq(p.udp.Payload)
 }
 
@@ -127,6 +142,8 @@ type scionVariant struct {
 	udpLenDelta    int   // added to the UDP length field after serialisation
 	truncate       int   // bytes cut from the end
 	garbage        []byte
+	hbh            bool      // a hop-by-hop extension header (padding option) in front of E2E extension / UDP
+	auth           *authSpec // E2E extension with a packet authenticator option (gen_auth.go)
 }
 
 func tsOptData(ns int64) []byte {
@@ -180,21 +197,40 @@ func buildSCION(v scionVariant, srcPort, dstPort uint16, payload []byte) (d dgra
 			must(u.SerializeTo(buffer, options))
 		}
 		scn.NextHdr = l4
-		if v.e2eTs != 0 || v.e2eEmpty || v.tsRaw != nil {
+		if v.e2eTs != 0 || v.e2eEmpty || v.tsRaw != nil || v.auth != nil {
 			var e2e slayers.EndToEndExtn
 			e2e.NextHdr = l4
 			if v.tsRaw != nil {
 				e2e.Options = []*slayers.EndToEndOption{{OptType: scion.OptTypeTimestamp, OptData: v.tsRaw}}
 			} else if v.e2eTs != 0 {
 				e2e.Options = []*slayers.EndToEndOption{{OptType: scion.OptTypeTimestamp, OptData: tsOptData(v.e2eTs)}}
-			} else {
+			} else if v.e2eEmpty {
 				e2e.Options = []*slayers.EndToEndOption{{OptType: slayers.OptTypePadN, OptData: make([]byte, 2)}}
+			}
+			if v.auth != nil {
+				// the MAC covers the SCION header fields and the UDP header + payload serialised so far
+				ao := v.auth.option(&scn, l4, buffer.Bytes())
+				if v.auth.first {
+					e2e.Options = append([]*slayers.EndToEndOption{ao}, e2e.Options...)
+				} else {
+					e2e.Options = append(e2e.Options, ao)
+				}
 			}
 			must(e2e.SerializeTo(buffer, options))
 			scn.NextHdr = slayers.End2EndClass
 		}
+		if v.hbh {
+			var hbh slayers.HopByHopExtn
+			hbh.NextHdr = scn.NextHdr
+			hbh.Options = []*slayers.HopByHopOption{{OptType: slayers.OptTypePadN, OptData: make([]byte, 2)}}
+			must(hbh.SerializeTo(buffer, options))
+			scn.NextHdr = slayers.HopByHopClass
+		}
 		must(scn.SerializeTo(buffer, options))
 		d.wire = append([]byte(nil), buffer.Bytes()...)
+		if v.auth != nil && v.auth.alterPayload && len(payload) > 2 {
+			d.wire[len(d.wire)-len(payload)+2] ^= 0x04 // poll field, after the MAC was computed: unchecked by the NTP stage
+		}
 		if v.udpLenDelta != 0 && !v.scmp {
 			off := len(d.wire) - len(payload) - 8 + 4
 			binary.BigEndian.PutUint16(d.wire[off:], uint16(int(binary.BigEndian.Uint16(d.wire[off:]))+v.udpLenDelta))
@@ -248,8 +284,9 @@ func buildSCION(v scionVariant, srcPort, dstPort uint16, payload []byte) (d dgra
 		udpLen = int(p.udp.Length)
 		d.b = append([]byte(nil), p.udp.Payload...)
 	}
-	d.facts = fmt.Sprintf("true:%s:%d:%d:%d:%d:%d:%d:%s:-", layers, len(d.wire), udpLen,
-		uint64(p.scn.SrcIA), hostNum(p.scn.RawSrcAddr), uint64(p.scn.DstIA), hostNum(p.scn.RawDstAddr), ts)
+	au := readRespAuth(&d, p, layers, udpLen)
+	d.facts = fmt.Sprintf("true:%s:%d:%d:%d:%d:%d:%d:%s:%s", layers, len(d.wire), udpLen,
+		uint64(p.scn.SrcIA), hostNum(p.scn.RawSrcAddr), uint64(p.scn.DstIA), hostNum(p.scn.RawDstAddr), ts, au)
 	d.pathOK = isUDP && len(d.wire) >= udpLen &&
 		p.scn.SrcIA == remoteIA && hostNum(p.scn.RawSrcAddr) == addrNum(thePeer.addr.Addr()) &&
 		p.scn.DstIA == localIA && hostNum(p.scn.RawDstAddr) == addrNum(localIP)
@@ -469,6 +506,5 @@ func genC05SCION(c *lib.Ctx) {
 		}
 		c.Count("f13:scion")
 	}
-	c.NotExecuted("SCION client with a DRKey key available on the live socket (needs a daemon connector; modelled with the MAC verdict as input)")
 	_ = strings.Join
 }
